@@ -74,6 +74,8 @@ func runC15(c *core.Ctx) {
 	c.Doc("C15.transitions", "services[id] filled only from staging[id] (then deleted) or by a name/id-preserving update; readers never see staging", 5)
 	c.Doc("C15.events", "added/removed emitted exactly once per transition, with the entry's id and name, nowhere else", 6)
 
+	ruleRegistryCopies(c, "C15.transitions", dirSt, staging, services, handwritten)
+
 	// ---- id
 	var registrars []*ssa.Function
 	for _, fn := range handwritten {
@@ -468,6 +470,10 @@ func checkEvent(c *core.Ctx, fn *ssa.Function, name string, lk *ssa.Lookup, tr s
 	for i, call := range calls {
 		key := fmt.Sprintf("%s#%d", base, i+1)
 		in := call.(ssa.Instruction)
+		if _, plain := call.(*ssa.Call); !plain {
+			c.Fail("C15.events", key, call.Pos(), name+" is emitted from a goroutine of its own (or deferred): the function returns before the event is out, and an unregistration following a ready can deliver serviceRemoved before serviceAdded (events in an order that never happened)")
+			continue
+		}
 		if !core.Guarded(fn, in, core.IsTrue(okOf(lk))) {
 			c.Fail("C15.events", key, call.Pos(), name+" can be emitted although the entry was not found (no transition happened)")
 			continue
